@@ -84,9 +84,10 @@ def check(run) -> None:
     scs = sorted(gen.json, key=lambda s: json.dumps(s, sort_keys=True))
     if quick:
         import random
-        keep = [s for s in scs if s["other"] == "none"]
+        keep = [s for s in scs if s["other"] == "none"]     # (includes every firstbind / cont / anim scenario)
         rest = [s for s in scs if s["other"] != "none"]
         scs = keep + random.Random(run.seed).sample(rest, min(60, len(rest)))
+    scs += board.monitor_scenarios()          # the serial monitor constructed in a branch / loop / helper / the main loop
     fw.ensure_runtime(False)
     with cf.ProcessPoolExecutor(max_workers=NCPU) as ex:
         outs = list(ex.map(board.run_scenario, scs, chunksize=2))
